@@ -50,6 +50,41 @@ CLAIMED = {
          "(ranking), no_lost_wakeup, progress (ranking), default_scheduler_sync. Tie: every explored schedule of the real scheduler is replayed step by "
          "step through the LTS (co-simulation) and the model's FIFO order is compared with the tasks' own start stamps.",
          "§5 C08", "Lean 4 proof: inductive invariants + ranking functions over an n-thread lock-level LTS + co-simulation of explored schedules"),
+ "C09": ("Theorems Rx.Handoff.* (C09.lean) on the LTS of observe_on / subscribe_on over an atomic FIFO channel (source thread, worker, optional unsubscriber; "
+         "one micro-step per lock operation of sink_*/finalize): observe_on_prefix (delivered is always a prefix of the emitted script, all on the worker, never "
+         "two callbacks at once), observe_on_exact, abort_only_after_end, after_unsub_nothing, subscribe_on_runs_on_worker, subscribe_on_exact, observe_on_twice_*. "
+         "That the real Mutex/Condvar queue refines the FIFO channel is C08. Tie: pipelines with observe_on/subscribe_on at several positions and stacked "
+         "twice over synchronous and threaded sources under seeded schedules; delivered = what the same pipeline delivers sequentially (Lean model A), thread "
+         "affinity, no overlap, nothing after unsubscribe returned (no co-simulation of this LTS yet).",
+         "§5 C09", "Lean 4 proof: LTS invariants over an abstract FIFO channel + exploration of the real operators under seeded schedules"),
+ "C10": ("Theorems Rx.SubjM.* (C10.lean) on the mirrored state machines of the four subject kinds for ALL call sequences: delivers_to_current, "
+         "no_observer_after_terminal, no_observer_after_unsubscribe, registered_alive, terminated_not_registered, plain_log_spec, behavior_handover, "
+         "replay_handover, async_last_only, log_contract. Tie: implementation = object machine on all cases; implementation = SubjM on directly "
+         "subscribed call sequences (exhaustive up to length 3/4 + random); observer counts against live subscriptions. AsyncSubject differs from ReactiveX "
+         "(per-subscriber buffer) - known finding F17, evaluated against a ReactiveX AsyncSubject spec on every case.",
+         "§5 C10", "Lean 4 proof: induction over call sequences of mirrored state machines + per-run differential correspondence"),
+ "C11": ("Theorems Rx.C11 (C11.lean) on lock-level LTSs: merge through the StreamController with k input threads (never_two_terminals, last_one_out, "
+         "merge_prefix, merge_conserves: multiset + per-input order + one complete last), take_at_most_n, amb_one_winner, zip_tuples (multiset of the i-th "
+         "pairings; delivery order may differ), all scripts, any number of inputs, all interleavings. flat_map/concat share sink_* with merge and are covered by "
+         "exploration only. Tie: threaded sources feeding merge/concat/zip/amb/flat_map (with and without take) under seeded schedules, conservation "
+         "predicates on the recorded deliveries (no co-simulation of these LTSs yet).",
+         "§5 C11", "Lean 4 proof: LTS invariants + exploration of the real operators under seeded schedules"),
+ "C13": ("Theorems Rx.ConnM.* (C13.lean) on the mirrored state machines of publish / ref_count / replay over SubjM, hot and cold-synchronous sources, ALL "
+         "call sequences: publish_connects_only_on_connect, same_items_for_present, ref_count_first_last, at_most_one_source_subscription, "
+         "replay_complete_history, replay_arrival, disconnect_stops_source. Convention proved: ref_count/replay connect once ever (never reconnect). "
+         "Tie: implementation = object machine on all cases; implementation = ConnM (logs, source subscription count, registrations) on directly subscribed ones.",
+         "§5 C13", "Lean 4 proof: induction over call sequences of mirrored state machines + per-run differential correspondence"),
+ "C15": ("partial: Theorems Rx.Timed.* (C15.lean) in virtual time: interval_exits_within_one_period (+ liveness), timer_exits, debounce_exits, "
+         "timeout_timer_exits_partial, no_accumulation; with C08 worker_exits and C09 abort_only_after_end. The timeout model predates the repair of the "
+         "timer leak found by this check (fix: commit) - its partial theorem (2 periods) is weaker than the repaired code. Tie: ~100 scenarios thread-creating "
+         "operator x terminating cause under seeded schedules in virtual time: every library thread has exited at quiescence and no later than one "
+         "timer period after the subscription ended. NOT modelled: OS thread teardown; nestings beyond the catalogue.",
+         "§5 C15", "Lean 4 proof (virtual-time LTSs, partial) + exploration in virtual time with thread accounting"),
+ "C16": ("partial: Theorems Rx.Timed.* (C16.lean) in discrete virtual time, all periods and gap scripts, all interleavings within an instant: interval_ticks, "
+         "timer_once, delay_times (order kept, hand-over d after receipt; delays accumulate because the source thread sleeps), timeout_exact (no ties), "
+         "debounce_subsequence, sample_subsequence. Tie: the real operators on the facade's virtual clock, (time, event) records compared with the property's "
+         "instants. NOT modelled: real time, scheduling latency, Instant/SystemTime values.",
+         "§5 C16", "Lean 4 proof (virtual-time LTSs, partial) + exploration on a virtual clock"),
  "C12": ("Theorems Rx.Conc.* (C12.lean) on lock-level LTSs of Subject, ReplaySubject, BehaviorSubject for any number of threads and programs: "
          "stays_subscribed_gets_all, per_producer_gap_free, no_duplicates, late_subscriber_suffix, unsubscriber_prefix. The late-subscriber clauses for "
          "Replay/Behavior are proved FALSE under concurrency (replay_late_subscriber_violated, behavior_late_subscriber_violated: shortest witness "
